@@ -229,8 +229,8 @@ V('c11-to-er7-normalises', 'C11', 'hl7apy/core.py',
 
 # ---------------------------------------------------------------- C12
 V('c12-segment-add-bookkeeping-first', 'C12', 'hl7apy/core.py',
-  "        super(Segment, self).add(obj)\n        # updates the index of the last children not allowed\n        if obj.name and self.allow_infinite_children:\n            field_index = int(obj.name[4:])\n            if field_index > self._last_child_index:\n                self._last_child_index = field_index",
-  "        # updates the index of the last children not allowed\n        if obj.name and self.allow_infinite_children:\n            field_index = int(obj.name[4:])\n            if field_index > self._last_child_index:\n                self._last_child_index = field_index\n        super(Segment, self).add(obj)",
+  "        super(Segment, self).add(obj)\n        # updates the index of the last children not allowed (a child created by a mere read does not count until it is promoted)\n        if obj.name and self.allow_infinite_children and obj.traversal_parent is None:\n            field_index = int(obj.name[4:])\n            if field_index > self._last_child_index:\n                self._last_child_index = field_index",
+  "        # updates the index of the last children not allowed (a child created by a mere read does not count until it is promoted)\n        if obj.name and self.allow_infinite_children and obj.traversal_parent is None:\n            field_index = int(obj.name[4:])\n            if field_index > self._last_child_index:\n                self._last_child_index = field_index\n        super(Segment, self).add(obj)",
   rule='C12-O')
 V('c12-remove-by-name-then-check', 'C12', 'hl7apy/core.py',
   "        child = self.child_at_index(name, index)\n        self.remove(child)\n        return child",
